@@ -12,3 +12,6 @@ import PlcProofs.Props.C09
 #print axioms C09.duration_sum
 #print axioms C09.tod_fields_in_range
 #print axioms C09.date_is_calendar_date
+#print axioms C09.filter_underscore
+#print axioms C09.fixedPoint_underscores_ignored
+#print axioms C09.integer_underscores_ignored
